@@ -11,6 +11,10 @@ pub struct Hc128 {
     pub cov_steps: [bool; 1024],
     pub cov_h_lo: [bool; 512],
     pub cov_h_hi: [bool; 512],
+    /// instrumentation for value-directed searches: the table increment (g1/g2 value) and the word that
+    /// indexed the h function in the last step
+    pub last_increment: u32,
+    pub last_index_word: u32,
 }
 
 #[inline(always)]
@@ -67,6 +71,8 @@ impl Hc128 {
             cov_steps: [false; 1024],
             cov_h_lo: [false; 512],
             cov_h_hi: [false; 512],
+            last_increment: 1,
+            last_index_word: 1,
         };
         for i in 0..512 {
             s.p[i] = w[i + 256];
@@ -120,12 +126,18 @@ impl Hc128 {
         self.cov_steps[phase] = true;
         self.i = self.i.wrapping_add(1);
         if phase < 512 {
-            self.p[j] = self.p[j].wrapping_add(g1(self.p[m(j, 3)], self.p[m(j, 10)], self.p[m(j, 511)]));
+            let inc = g1(self.p[m(j, 3)], self.p[m(j, 10)], self.p[m(j, 511)]);
+            self.last_increment = inc;
+            self.p[j] = self.p[j].wrapping_add(inc);
             let x = self.p[m(j, 12)];
+            self.last_index_word = x;
             self.h1(x, true) ^ self.p[j]
         } else {
-            self.q[j] = self.q[j].wrapping_add(g2(self.q[m(j, 3)], self.q[m(j, 10)], self.q[m(j, 511)]));
+            let inc = g2(self.q[m(j, 3)], self.q[m(j, 10)], self.q[m(j, 511)]);
+            self.last_increment = inc;
+            self.q[j] = self.q[j].wrapping_add(inc);
             let x = self.q[m(j, 12)];
+            self.last_index_word = x;
             self.h2(x, true) ^ self.q[j]
         }
     }
